@@ -106,13 +106,12 @@ func checkC19(r *core.Run) {
 // provider holds this shard now"; a shard that is only assigned (waiting /
 // migrating) must therefore carry no period.
 func rulePeriodWriters(r *core.Run, id string) {
-	allowed := set("sao/keeper.msgServer.Complete", "sao/keeper.Keeper.HandleExpiredShard")
-	n := 0
+	// which functions assign the period fields
+	writers := map[*ssa.Function]string{}
 	for _, f := range r.P.SortedFuncs(r.ConsensusFuncs()) {
-		if r.P.IsGenerated(f) || strings.Contains(r.P.Name(f), "/migrations/") || strings.Contains(r.P.Name(f), "migration") {
+		if r.P.IsGenerated(f) {
 			continue
 		}
-		seen := map[string]bool{}
 		for _, b := range f.Blocks {
 			for _, ins := range b.Instrs {
 				st, ok := ins.(*ssa.Store)
@@ -124,22 +123,40 @@ func rulePeriodWriters(r *core.Run, id string) {
 					continue
 				}
 				fld := fieldNameT(fa.X.Type(), fa.Field)
-				if fld != "CreatedAt" && fld != "Duration" {
-					continue
-				}
-				if seen[fld] {
-					continue
-				}
-				seen[fld] = true
-				n++
-				key := core.Key(id, r.P.Name(f), "Shard."+fld)
-				if allowed[r.P.Name(f)] {
-					r.Discharge(id, key, r.P.Pos(st.Pos()), "paid period assigned on completion / roll-over")
-				} else {
-					r.Violate(id, key, r.P.Pos(st.Pos()), fmt.Sprintf("%s assigns Shard.%s: a shard that is merely assigned to a provider (waiting / migrating) gets a paid period, so every test of the form CreatedAt + Duration > height (fault-report validity, expiry) treats it as held by that provider although the provider never stored it", r.P.Name(f), fld))
+				if fld == "CreatedAt" || fld == "Duration" {
+					if _, seen := writers[f]; !seen {
+						writers[f] = r.P.Pos(st.Pos())
+					}
 				}
 			}
 		}
 	}
-	r.Floor("period_writer_sites", n, 4)
+	// which entry points can reach them: only completion and the expiry roll-over (and store migrations)
+	allowed := func(root string) bool {
+		return root == "sao.Complete" || root == "sao.EndBlock" || root == "pseudo:HandleExpiredShard" || strings.Contains(root, "migration") || strings.Contains(root, "upgrade")
+	}
+	n := 0
+	for _, rt := range capRoots(r) {
+		reach := r.P.CG.Reach(rt.Fn)
+		var hit []*ssa.Function
+		for w := range writers {
+			if reach[w] {
+				hit = append(hit, w)
+			}
+		}
+		key := core.Key(id, rt.Name)
+		switch {
+		case len(hit) == 0:
+			r.Discharge(id, key, r.P.FuncPos(rt.Fn), "no assignment of Shard.CreatedAt/Duration reachable")
+		case allowed(rt.Name):
+			n++
+			r.Discharge(id, key, r.P.FuncPos(rt.Fn), "completion / roll-over entry point")
+		default:
+			n++
+			w := r.P.SortedFuncs(map[*ssa.Function]bool{hit[0]: true})[0]
+			r.Violate(id, key, writers[w], fmt.Sprintf("entry point %s can reach %s, which assigns a shard's paid period (Shard.CreatedAt / Duration): a shard that is merely assigned to a provider (waiting / migrating) gets a period, so every test of the form CreatedAt + Duration > height (fault-report validity, expiry) treats it as held by that provider although the provider never stored it", rt.Name, r.P.Name(w)), "call path: "+strings.Join(r.P.CG.Path(rt.Fn, w), " -> "))
+		}
+	}
+	r.Floor("period_writer_functions", len(writers), 2)
+	r.Count("period_writer_roots", n)
 }
